@@ -59,13 +59,15 @@ type Prog struct {
 	RepoDir          string
 	Config           string // build configuration label
 	NumPkgsInClosure int
-	Normalized       int // spellings mapped to the engines' form at load time (normalize.go)
+	Overlay          map[string][]byte // file contents the program was loaded with instead of the files on disk
+	InlineNotes      []string          // what the helper inliner did (inline.go)
+	Normalized       int               // spellings mapped to the engines' form at load time (normalize.go)
 
 	// lazily built
-	cg        *CallGraph
-	effects   map[*Func]*Effects
-	defs      map[*Func]map[types.Object][]ast.Node
-	ifaceUsed map[*types.TypeName]bool
+	cg         *CallGraph
+	effects    map[*Func]*Effects
+	defs       map[*Func]map[types.Object][]ast.Node
+	ifaceUsed  map[*types.TypeName]bool
 	synthRange map[*ast.RangeStmt]bool // range statements synthesised by normalizeAST
 }
 
@@ -93,7 +95,7 @@ func Load(dir string, env []string, overlay map[string][]byte, patterns ...strin
 	}
 	p := &Prog{
 		Funcs: map[string]*Func{}, ByObj: map[*types.Func]*Func{}, ByLit: map[*ast.FuncLit]*Func{},
-		Files: map[*ast.File]*packages.Package{}, RepoDir: dir,
+		Files: map[*ast.File]*packages.Package{}, RepoDir: dir, Overlay: overlay,
 		Info: &types.Info{
 			Types: map[ast.Expr]types.TypeAndValue{}, Defs: map[*ast.Ident]types.Object{},
 			Uses: map[*ast.Ident]types.Object{}, Selections: map[*ast.SelectorExpr]*types.Selection{},
